@@ -46,6 +46,8 @@ type World struct {
 	failedInit    map[string]bool
 	initNotes     []string
 	regionGlobals map[*ssa.Global]uint64 // array globals that are sliced: live in element regions
+	poolPuts      map[*ssa.Global][]int
+	poolBad       map[*ssa.Global]bool
 
 	pureIfaceMethods map[string]bool
 	loadErrors       []string
@@ -388,6 +390,14 @@ func (w *World) runInits() []string {
 		}
 	}
 	sort.Strings(paths)
+	// the colour models and image constants of the standard library are
+	// package-level values the code compares against
+	for _, path := range []string{"image/color", "image"} {
+		if sp, ok := w.Pkgs[path]; ok {
+			order = append(order, sp)
+			seen[sp] = true
+		}
+	}
 	for _, path := range paths {
 		visit(w.Pkgs[path])
 	}
@@ -452,4 +462,50 @@ func (w *World) runInits() []string {
 	w.initFacts = ctx.assumes
 	notes = append(notes, w.initNotes...)
 	return notes
+}
+
+// poolTypes: the dynamic types ever Put into the sync.Pool the call refers to
+// (only for pools that are package-level variables).
+func (w *World) poolTypes(fn *ssa.Function, args []*Val) ([]int, bool) {
+	if len(args) == 0 || args[0] == nil || args[0].Ptr == nil || args[0].Ptr.Cell == nil || args[0].Ptr.Cell.Global == nil {
+		return nil, false
+	}
+	g := args[0].Ptr.Cell.Global
+	if w.poolPuts == nil {
+		w.poolPuts = map[*ssa.Global][]int{}
+		w.poolBad = map[*ssa.Global]bool{}
+		for f := range ssautil.AllFunctions(w.Prog) {
+			if f.Pkg == nil || !strings.HasPrefix(f.Pkg.Pkg.Path(), modulePath) {
+				continue
+			}
+			for _, b := range f.Blocks {
+				for _, in := range b.Instrs {
+					call, ok := in.(ssa.CallInstruction)
+					if !ok {
+						continue
+					}
+					cc := call.Common()
+					callee := cc.StaticCallee()
+					if callee == nil || fullName(callee) != "sync.Pool.Put" || len(cc.Args) != 2 {
+						continue
+					}
+					pg, ok := cc.Args[0].(*ssa.Global)
+					if !ok {
+						continue
+					}
+					mi, ok := cc.Args[1].(*ssa.MakeInterface)
+					if !ok {
+						w.poolBad[pg] = true
+						continue
+					}
+					w.poolPuts[pg] = append(w.poolPuts[pg], w.typeTag(mi.X.Type()))
+				}
+			}
+		}
+	}
+	if w.poolBad[g] {
+		return nil, false
+	}
+	// the pool's New function (if any) is not modelled: Get may also return nil
+	return w.poolPuts[g], true
 }
